@@ -19,6 +19,10 @@ pub fn gen(r: &mut Rng) -> Value {
         let lines: Vec<String> = (0..n).map(|_| r.pick(&shapes).to_string()).collect();
         return json!({"script": lines.join("\n"), "mode": 3});
     }
+    if r.chance(1, 6) {
+        // file form followed by extra words (script arguments)
+        return json!({"script": r.pick(&scripts), "mode": 4, "extra": r.pick(&["x", "other.ds", "-e", "--lint", "1 2"])});
+    }
     json!({"script": r.pick(&scripts), "mode": r.below(4)})
 }
 
@@ -39,6 +43,7 @@ pub fn run(input: &Value) -> Option<Value> {
         0 => Proc::new(&bin).arg(&fpath).output(),
         1 => Proc::new(&bin).arg("-e").arg(script).output(),
         2 => Proc::new(&bin).arg("--eval").arg(script).output(),
+        4 => Proc::new(&bin).arg(&fpath).args(input["extra"].as_str().unwrap_or("x").split(' ')).output(),
         _ => Proc::new(&bin).arg("--lint").arg(&fpath).output(),
     }
     .ok()?;
